@@ -179,6 +179,11 @@ pub fn scenario(name: &str, params: &Value) -> Scenario {
                     }
                 }
                 e.push(Ev::DropCtx);
+                // the server ends the connection (run() returns, the Context is dropped): whatever
+                // its reason, operations still pending are told that the context is gone
+                for r in [0x93u8, 0x97, 0x8b] {
+                    e.push(Ev::Deliver(pvcore::refcodec::SPacket::Disconnect { reason: r, props: vec![], form: 1 }));
+                }
             } else {
                 let after = s.m.ops.iter().filter(|o| matches!(o.st, St::NotPolled)).count();
                 if after == 0 && s.m.ops.len() < 8 {
